@@ -12,6 +12,7 @@ import (
 	"go/token"
 	"hash/fnv"
 	"path/filepath"
+	"regexp"
 	"sort"
 	"strings"
 )
@@ -24,6 +25,14 @@ func nodeText(n ast.Node) string {
 	var sb strings.Builder
 	_ = printer.Fprint(&sb, fset, n)
 	return strings.Join(strings.Fields(sb.String()), " ")
+}
+
+var identRe = regexp.MustCompile(`[A-Za-z_][A-Za-z0-9_]*`)
+
+// shapeText: the expression with every identifier replaced by `_` (so that renaming a variable or a field is not a
+// new site) but literals, operators and the bounds structure kept
+func shapeText(n ast.Node) string {
+	return strings.ReplaceAll(identRe.ReplaceAllString(nodeText(n), "_"), " ", "")
 }
 
 func extractC12(o *out) {
@@ -256,12 +265,12 @@ func extractC12(o *out) {
 			}
 			count := map[string]int{}
 			add := func(kind string, n ast.Node) {
-				key := fmt.Sprintf("%s|%s|%s|%s", filepath.Base(rel), fname, kind, nodeText(n))
+				key := fmt.Sprintf("%s|%s|%s|%s", filepath.Base(rel), fname, kind, shapeText(n))
 				count[key]++
 				full := fmt.Sprintf("%s#%d", key, count[key])
 				h := fnv.New32a()
 				h.Write([]byte(full))
-				sites = append(sites, site{h.Sum32(), full})
+				sites = append(sites, site{h.Sum32(), full + "   " + nodeText(n)})
 			}
 			typeSwitchAsserts := map[ast.Node]bool{}
 			commaOk := map[ast.Node]bool{}
@@ -302,7 +311,7 @@ func extractC12(o *out) {
 			})
 		}
 	}
-	fmt.Fprintf(b, "/-- fingerprints (FNV-32a of `file|func|kind|expression#occurrence`) of every index / slice / unchecked type\n    assertion / func-field call in the DNS server handler, the command decoders and the record (un)wrapping -/\n")
+	fmt.Fprintf(b, "/-- fingerprints (FNV-32a of `file|func|kind|expression shape#occurrence`) of every index / slice / unchecked type\n    assertion / func-field call in the DNS server handler, the command decoders and the record (un)wrapping -/\n")
 	fmt.Fprintf(b, "def panicSites : List Nat := [\n")
 	for i, s := range sites {
 		sep := ","
